@@ -7,6 +7,7 @@ import (
 	"io"
 	"net"
 	"sync"
+	"syscall"
 	"time"
 )
 
@@ -24,11 +25,12 @@ type KDC struct {
 	udpRx     [][]byte // datagrams
 	conns     []net.Conn
 	closed    bool
+	reservedFd int
 }
 
 // Start opens a KDC on a fresh loopback port. Behaviour "refuse" reserves nothing: the port is closed.
 func Start(behaviour string, reply []byte, udpReply bool) (*KDC, error) {
-	k := &KDC{Behaviour: behaviour, Reply: reply, UDPReply: udpReply}
+	k := &KDC{Behaviour: behaviour, Reply: reply, UDPReply: udpReply, reservedFd: -1}
 	for try := 0; try < 50; try++ {
 		l, err := net.Listen("tcp", "127.0.0.1:0")
 		if err != nil {
@@ -42,8 +44,19 @@ func Start(behaviour string, reply []byte, udpReply bool) (*KDC, error) {
 		}
 		k.Port = port
 		if behaviour == "refuse" {
+			// connections must be refused, but the port has to stay ours: another process could otherwise bind it
+			// and receive what the proxy sends. A TCP socket that is bound but not listening refuses connections.
 			l.Close()
-			u.Close()
+			fd, err := syscall.Socket(syscall.AF_INET, syscall.SOCK_STREAM, 0)
+			if err == nil {
+				if syscall.Bind(fd, &syscall.SockaddrInet4{Port: port, Addr: [4]byte{127, 0, 0, 1}}) != nil {
+					syscall.Close(fd)
+					u.Close()
+					continue
+				}
+				k.reservedFd = fd
+			}
+			k.udp = u // bound, never read: silent
 			return k, nil
 		}
 		k.tcp, k.udp = l, u
@@ -164,6 +177,9 @@ func (k *KDC) Close() {
 	}
 	if k.udp != nil {
 		k.udp.Close()
+	}
+	if k.reservedFd >= 0 {
+		syscall.Close(k.reservedFd)
 	}
 	for _, c := range k.conns {
 		c.Close()
